@@ -20,6 +20,8 @@ fn generate(ctx: &Ctx, n: usize, via_file: bool, tag: &str) -> Result<String, St
     let mut args = vec!["-n".to_string(), n.to_string()];
     let file = dir.join("queens.txt");
     if via_file {
+        // the output file already exists and is longer than what will be written
+        let _ = std::fs::write(&file, super::common::stale_content());
         args.push(file.display().to_string());
     }
     let out = cli::run(&ctx.bin("n_queens_gen"), &args, None, Some(&dir), None, Duration::from_secs(120));
@@ -58,7 +60,7 @@ pub fn check_n(ctx: &Ctx, st: &mut Stats, n: usize, exact: bool, with_rsbdd: boo
     if n <= 64 {
         match generate(ctx, n, true, &format!("{}-b", n)) {
             Ok(t2) if t2 == text => st.bump("file_output_equals_stdout"),
-            Ok(_) => st.violate("c15.run", format!("C15:file-output-differs:n={}", n), format!("n = {}: output written to a file differs from stdout", n), case()),
+            Ok(t2) => st.violate("c15.run", format!("C15:file-output-differs:n={}", n), format!("n = {}: output written to an (already existing, longer) file differs from stdout: {} vs {} bytes; tail of the file: {:?}", n, t2.len(), text.len(), t2.chars().rev().take(60).collect::<String>().chars().rev().collect::<String>()), case()),
             Err(e) if e == "watchdog" => st.inconclusive(format!("n_queens_gen -n {} (file output) hit the watchdog or could not be started", n)),
             Err(e) => st.violate("c15.run", format!("C15:generator-failed:n={}", n), e, case()),
         }
@@ -288,7 +290,7 @@ pub fn run(ctx: &Ctx) -> (Stats, Spec) {
     let mut st = crate::report::merge_all(parts);
     st.exhaustive.push(format!("exact model-set equality for every board size n = 1..{}", exact_max));
     let spec = Spec {
-        rule: "every board size n = 1..10 [quick] / 1..12 [thorough]: the real generator's output (stdout and file) is parsed by the reference grammar, its variable set must be v_0..v_(n^2-1), and ALL its models (three-valued propagation search) are compared as a set with an independent backtracking enumeration; rsbdd -t -ft cross-check for n <= 6 / 7; larger n incl. 255, 256, 257: variable set, attacking and non-attacking square pairs (all pairs when feasible, else sampled with a bias to shared lines), empty rows/columns, a constructed placement and near-misses. distinct = board size (exact) / board size (probed); every board size is a configuration.".into(),
+        rule: "every board size n = 1..10 [quick] / 1..12 [thorough]: the real generator's output (stdout, and a file that already exists with longer content) is parsed by the reference grammar, its variable set must be v_0..v_(n^2-1), and ALL its models (three-valued propagation search) are compared as a set with an independent backtracking enumeration; rsbdd -t -ft cross-check for n <= 6 / 7; larger n incl. 255, 256, 257: variable set, attacking and non-attacking square pairs (all pairs when feasible, else sampled with a bias to shared lines), empty rows/columns, a constructed placement and near-misses. distinct = board size (exact) / board size (probed); every board size is a configuration.".into(),
         assumptions: vec![
             "v_k is read as 'a queen on row k div n, column k mod n'".into(),
             "for n beyond the enumerable bound the model set is only probed, not compared".into(),
